@@ -185,7 +185,8 @@ impl Shape {
     }
 }
 
-pub const IDS: [&str; 5] = ["a", "b", "c", "d", "e"];
+/// mixed letter case on purpose: byte order and case-folded order disagree ("B" < "a" but "b" > "a")
+pub const IDS: [&str; 5] = ["a", "B", "c", "D", "e"];
 pub const CODES: [u16; 4] = [0, 200, 404, 500];
 pub const OVERRIDES: [Option<bool>; 3] = [None, Some(true), Some(false)];
 
